@@ -5,6 +5,9 @@ import json, subprocess, sys
 
 CLAIMED = {
  # id: (engine kind, what is enumerated, technique)
+ "C02": ("E1 breadth-first history exploration with heap-graph deduplication + E2 products",
+         "all histories of <= 5 (quick) / <= 7 (thorough, wall-capped) operations from 56 alias-shape operations on a, b, c (a container stored in itself / in its comparand / on both sides of an operator, element += with the container itself, range assignment / spread / collect / destructuring of a container into itself, loops that overwrite what they iterate, print and == / != / === against itself and wrappers of itself, a function mutating one parameter and comparing it with the other), merged on the isomorphism class of the reference heap graph (cycles included); 16 operators x 24^2 ordered operand pairs over aliased and cyclic shapes, op-assign and plain assignment x 9 places x 24 operands, 13 contexts x 24 operands; integer boundary pairs, multi-byte text around slots, out-of-range slices; oracle = the run ends by completion or reported diagnostic (never panic / signal / hang), and equals the reference output wherever no self-containing container is traversed",
+         "explicit-state breadth-first exploration with canonical-state deduplication on the real interpreter; crash oracle"),
  "C04": ("E1 breadth-first history exploration",
          "all well-formed histories of <= 6 (quick) / <= 8 (thorough, wall-capped) scope operations from 16 operations (x := k, x = k, print(x), open block / fn f / fn g / while / for, close, f(), g(), return a closure that reads and writes x, h = f(), h(), h = closure, guarded recursion); each program is completed by reading x at every open level and calling what was defined; dead states are not expanded; oracle = reference interpreter with linked environments (stdout and termination class); vacuity guards: closure outlives its scope, late declaration seen by an earlier function, recursion, per-iteration redeclaration",
          "explicit-state breadth-first exploration of operation histories on the real interpreter against a reference model"),
